@@ -95,3 +95,11 @@ Fixpoint py_enumerate_from {A} (k : Z) (xs : list A) : list (Z * A) :=
   | x :: r => (k, x) :: py_enumerate_from (k + 1)%Z r
   end.
 Definition py_enumerate {A} (xs : list A) : list (Z * A) := py_enumerate_from 0%Z xs.
+
+(* `name in used` where used holds optional strings (None never equals a str) *)
+Fixpoint py_mem_optstr (x : str) (l : list (option str)) : bool :=
+  match l with
+  | [] => false
+  | Some y :: r => str_eqb x y || py_mem_optstr x r
+  | None :: r => py_mem_optstr x r
+  end.
